@@ -155,7 +155,7 @@ pub fn record(seed: u64, tier: &str, out: &str) {
     box_for!(i32, t, "i32", if thorough { 6 } else { 3 });
     box_for!(i128, t, "i128", if thorough { 6 } else { 3 });
     let tabs = t.events;
-    let n = if thorough { 250_000 } else { 4000 };
+    let n = if thorough { 250_000 } else { 20_000 };
     big_for!(i64, t, "i64", 30, n, &mut rng);
     big_for!(i32, t, "i32", 14, n / 3, &mut rng);
     big_for!(i128, t, "i128", 60, n / 3, &mut rng);
